@@ -1,6 +1,7 @@
 """C01 - the mode string decides exactly which items a sample has, and in which order."""
 import itertools
 
+import numpy as np
 import torch
 from hypothesis import strategies as st
 
@@ -123,7 +124,9 @@ def check(spec):
             if n == 0:
                 continue
             i = acc[1] % n if acc[1] >= 0 else -1 - ((-acc[1] - 1) % n)
-            _check_sample(mw[i], spec, ref, top, i + n if i < 0 else i, n)
+            form = acc[2] if len(acc) > 2 else "py"
+            key = {"py": int, "np": np.int64, "np32": np.int32, "t0": torch.tensor}[form](i)
+            _check_sample(mw[key], spec, ref, top, i + n if i < 0 else i, n)
             evals += 1
         elif kind == "slice":
             sl = slice(acc[1], acc[2], acc[3])
@@ -178,7 +181,9 @@ def check(spec):
 # ------------------------------------------------------------------------------------------ strategies
 def _ctx_keys(stack_spec, fused):
     """ctx keys recorded by item x (root and tag wrappers on the path of *every* sample: linear part only)"""
-    keys = {"x": ["x@root"]}
+    # the root records under a key that itself contains "ctx." (as a transform built with ctx_prefix="..._ctx" does): the mode item
+    # "ctx.<key>" names the key after the first "ctx." only
+    keys = {"x": ["root_ctx.x"]}
     s = stack_spec
     while s["t"] not in ("root", "concat"):
         if s["t"] == "wrap" and s["kind"] == "tag":
@@ -195,7 +200,8 @@ def _ctx_keys(stack_spec, fused):
 def access(draw):
     k = draw(st.sampled_from(["int", "int", "int", "slice", "list", "iter", "len"]))
     if k == "int":
-        return ["int", draw(st.integers(-40, 40))]
+        # python ints, and the integer types samplers and index arrays hand out (numpy scalars, 0-d tensors)
+        return ["int", draw(st.integers(-40, 40)), draw(st.sampled_from(["py", "py", "np", "np32", "t0"]))]
     if k == "slice":
         return ["slice", draw(st.one_of(st.none(), st.integers(-14, 14))), draw(st.one_of(st.none(), st.integers(-14, 14))),
                 draw(st.sampled_from([None, 1, 2, 3, -1, -2]))]
